@@ -138,7 +138,7 @@ impl ZnxNormalizeFirstStep for ZnxRef {
 impl ZnxNormalizeMiddleStep for ZnxRef {
     #[inline(always)]
     fn znx_normalize_middle_step<const OVERWRITE: bool>(base2k: usize, lsh: usize, x: &mut [i64], a: &[i64], carry: &mut [i64]) {
-        znx_normalize_middle_step_ref::<true>(base2k, lsh, x, a, carry);
+        znx_normalize_middle_step_ref::<OVERWRITE>(base2k, lsh, x, a, carry);
     }
 }
 
